@@ -358,10 +358,10 @@ def k8sLoad (shard n : Int) : List Str → Except String (List Str)
 
 `NewK8sCacheStore` starts `go wait.Until(store.sync, syncPeriod, store.stopCh)` when `syncPeriod > 0`: the
 flusher goroutine writes the store's conditions to the API every period until `stopCh` is closed. `Stop()`
-flushes one last time, closes `stopCh`, stops the local store and only then sets `stopped`; a failed final flush
-returns the error with everything still running, and `stopLimitStoreWithRetry` tries again (10 attempts, 2 s
-apart). Meanwhile the store is already out of `limitStoreMap` (`stopLeading` deleted it first): what is held
-during the retries is the detached store object with its flusher. -/
+closes `stopCh`, flushes one last time, stops the local store and only then sets `stopped`; a failed final flush
+returns the error and `stopLimitStoreWithRetry` tries again (10 attempts, 2 s apart), then gives up. Meanwhile the
+store is already out of `limitStoreMap` (`stopLeading` deleted it first): what is held during the retries is the
+detached store object — without a flusher from the first attempt on. -/
 
 structure KStore where
   periodic : Bool      -- syncPeriod > 0: the flusher goroutine was started
@@ -382,10 +382,12 @@ def KStore.flushOk (s : KStore) (apiOk : Bool) : Bool := apiOk || s.items == 0
 /-- invariant of `objectStore`: `stopped` is only ever set after `stopCh` was closed -/
 def KStore.WF (s : KStore) : Prop := s.stopped = true → s.stopCh = true
 
-/-- `objectStore.Stop()` while the API accepts (`apiOk`) or fails writes; `true` = nil was returned -/
+/-- `objectStore.Stop()` while the API accepts (`apiOk`) or fails writes; `true` = nil was returned.
+    `stopCh` is closed FIRST (the flusher ends whatever becomes of the final flush), then the final flush, then the
+    local store is stopped and `stopped` set. -/
 def KStore.stop (s : KStore) (apiOk : Bool) : KStore × Bool :=
   if s.stopped then (s, true)
-  else if !s.flushOk apiOk then (s, false)
+  else if !s.flushOk apiOk then ({ s with stopCh := true }, false)
   else ({ s with stopCh := true, stopped := true }, true)      -- localStore.Stop() returns nil
 
 /-- `stopLimitStoreWithRetry`: up to `fuel` (= 10) attempts; `api` says for each attempt whether the API accepts
